@@ -3,7 +3,7 @@
  * socketpair.
  *
  * The harness is the peer: it writes COBS framed requests [id bytes][serial,
- * payload] into one end, drives the input (next(POLLIN), dispatch, next(POLLOUT))
+ * payload] (also [id bytes] alone: empty payload) into one end, drives the input (next(POLLIN), dispatch, next(POLLOUT))
  * on the other end and decodes every frame that comes back.  The event
  * handler answers each request 0, 1 or 2 times through ev->reply.
  *
@@ -97,15 +97,27 @@ static int hnd(void *arg, MPT_STRUCT(event) *ev)
 	handler_calls++;
 	VF_CHECK(ev->msg != 0, "model:stream:event-without-message", "handler invoked without message");
 	m = *ev->msg;
-	VF_CHECK(mpt_message_read(&m, 1, &serial) == 1 && serial < nreq, "model:stream:payload", "handler received a message that does not start with a request serial");
-	q = &reqs[serial];
-	q->handled++;
-	VF_CHECK(q->handled == 1, "model:stream:request-dispatched-twice", "request #%d dispatched %d times", serial, q->handled);
 	{
-		uint8_t rest[32];
-		size_t n = mpt_message_read(&m, sizeof(rest), rest);
-		VF_CHECK(n == q->plen - 1 && !memcmp(rest, q->payload + 1, n), "model:stream:payload", "request #%d arrived with payload %s, sent %s", serial,
-		         vf_hex(hx1, sizeof(hx1), rest, n), vf_hex(hx2, sizeof(hx2), q->payload + 1, q->plen - 1));
+		/* requests carry their serial in the first payload byte; a request that consists of the id only is
+		 * recognised by its empty payload: it is the oldest id-only request not yet dispatched (frames of one
+		 * stream arrive in order) */
+		uint8_t body[40];
+		size_t n = mpt_message_read(&m, sizeof(body), body);
+		if (!n) {
+			int found = -1;
+			for (int i = 0; i < nreq; i++) if (!reqs[i].plen && !reqs[i].handled) { found = i; break; }
+			VF_CHECK(found >= 0, "model:stream:payload", "handler received an empty message although no id-only request is outstanding");
+			serial = (uint8_t) found;
+			vf_count("request:id-only-dispatched", 1);
+		} else {
+			serial = body[0];
+			VF_CHECK(serial < nreq, "model:stream:payload", "handler received a message that does not start with a request serial: %s", vf_hex(hx1, sizeof(hx1), body, n));
+		}
+		q = &reqs[serial];
+		q->handled++;
+		VF_CHECK(q->handled == 1, "model:stream:request-dispatched-twice", "request #%d dispatched %d times", serial, q->handled);
+		VF_CHECK(n == q->plen && (!n || !memcmp(body, q->payload, n)), "model:stream:payload", "request #%d arrived with payload %s, sent %s", serial,
+		         vf_hex(hx1, sizeof(hx1), body, n), vf_hex(hx2, sizeof(hx2), q->payload, q->plen));
 	}
 	if (q->zero) {
 		vf_count("request:without-id", 1);
@@ -276,9 +288,14 @@ void vf_case(uint64_t idx, vf_rng *r)
 			}
 			q->replies_plan = (int) vf_below(r, 3);
 			q->handler_ret = vf_chance(r, 1, 5) ? -1 - (int) vf_below(r, 3) : 0;
-			q->plen = 1 + vf_below(r, 12);
-			q->payload[0] = (uint8_t) nreq;
-			vf_bytes(r, q->payload + 1, q->plen - 1);
+			/* payload lengths 0 (request = id only), 1, 2 get extra weight */
+			q->plen = vf_chance(r, 1, 2) ? vf_below(r, 3) : 1 + vf_below(r, 12);
+			if (q->plen) {
+				q->payload[0] = (uint8_t) nreq;
+				vf_bytes(r, q->payload + 1, q->plen - 1);
+			} else {
+				vf_count(q->zero ? "peer:id-only-zero-id-requests" : "peer:id-only-requests", 1);
+			}
 			memcpy(frame, q->id, idlen); fl = idlen;
 			memcpy(frame + fl, q->payload, q->plen); fl += q->plen;
 			el = cobs_encode(frame, fl, enc);
@@ -297,6 +314,16 @@ void vf_case(uint64_t idx, vf_rng *r)
 		struct request *q = &reqs[i];
 		vf_count("monitor:request-accounted", 1);
 		if (!q->handled) {
+			int later = 0;
+			for (int k = i + 1; k < nreq; k++) later += reqs[k].handled;
+			/* a later request was dispatched: this one was consumed by the input without reaching the handler
+			 * (not a stall of the stream, which would hold back everything behind it) and stays unanswered */
+			if (later && !q->zero) {
+				VF_CHECK(q->replies_seen != 0, "model:stream:request-dropped-unanswered",
+				         "request #%d (id %s, %zu payload bytes) never reached the handler and got no reply, although %d later request(s) were dispatched",
+				         i, vf_hex(hx1, sizeof(hx1), q->id, idlen), q->plen, later);
+			}
+			if (later) vf_count("stream:request-dropped", 1);
 			/* the stream layer did not deliver the frame (bounded-progress matter of C02, not of this property):
 			 * nothing is claimed about a request the handler never saw */
 			vf_count("stream:request-never-dispatched", 1);
